@@ -242,3 +242,51 @@ Definition single_source_shape (s : sig) : bool :=
 
 Lemma tie_lifetimes_shape : forallb (fun p => single_source_shape (snd p)) gen_signatures = true.
 Proof. vm_compute. reflexivity. Qed.
+
+(* ---- thin bodies: methods whose body is one expression (coq/gen/GenSigs.v gen_thin_bodies) ---- *)
+Definition thin_of (header method : string) : option string :=
+  match find (fun r => match r with (_, h, m, _) => String.eqb h header && String.eqb m method end) gen_thin_bodies with
+  | Some (_, _, _, b) => Some b
+  | None => None
+  end.
+
+(* ---- the short multi-statement bodies (coq/gen/GenSigs.v gen_small_bodies) ---- *)
+Definition small_of (owner fn : string) : option (list string) :=
+  match find (fun r => String.eqb (fst (fst r)) owner && String.eqb (snd (fst r)) fn) gen_small_bodies with
+  | Some (_, _, b) => Some b
+  | None => None
+  end.
+
+(* the builders hand the array over exactly once: the owning builder reads its array out and forgets itself
+   (its Drop must not run over moved-out elements), the intrusive one forgets itself *)
+Lemma tie_builder_endings :
+  small_of "ArrayBuilder" "assume_init" =
+    Some ["debug_assert ! (self . is_full ()) ;"; "let array = ptr :: read (& self . array) ;";
+          "mem :: forget (self) ;"; "GenericArray :: assume_init (array)"] /\
+  small_of "IntrusiveArrayBuilder" "finish" = Some ["debug_assert ! (self . is_full ()) ;"; "mem :: forget (self)"].
+Proof. split; reflexivity. Qed.
+
+(* const_transmute: the size test, then a by-value reinterpretation through a repr(C) union of ManuallyDrop
+   fields (no reference to the argument is formed, so no alignment requirement arises, and the argument is
+   not dropped) *)
+Lemma tie_const_transmute_body :
+  small_of "" "const_transmute" =
+    Some ["if mem :: size_of :: < A > () != mem :: size_of :: < B > () { panic ! (""Size mismatch for generic_array::const_transmute"") ; }";
+          "# [repr (C)] union Union < A , B > { a : ManuallyDrop < A > , b : ManuallyDrop < B > , }";
+          "let a = ManuallyDrop :: new (a) ;";
+          "ManuallyDrop :: into_inner (Union { a } . b)"].
+Proof. reflexivity. Qed.
+
+(* the checked reinterpretations of a slice: the length test first, then a cast of the slice's own data pointer
+   (no offset, no new length): the view starts at element 0 and its extent is the type's *)
+Lemma tie_slice_casts :
+  small_of "GenericArray" "from_slice" =
+    Some ["if slice . len () != N :: USIZE { panic ! (""slice.len() != N in GenericArray::from_slice"") ; }";
+          "unsafe { & * (slice . as_ptr () as * const GenericArray < T , N >) }"] /\
+  small_of "GenericArray" "try_from_slice" =
+    Some ["if slice . len () != N :: USIZE { return Err (LengthError) ; }";
+          "Ok (unsafe { & * (slice . as_ptr () as * const GenericArray < T , N >) })"] /\
+  small_of "GenericArray" "from_mut_slice" =
+    Some ["assert ! (slice . len () == N :: USIZE , ""slice.len() != N in GenericArray::from_mut_slice"") ;";
+          "unsafe { & mut * (slice . as_mut_ptr () as * mut GenericArray < T , N >) }"].
+Proof. repeat split. Qed.
